@@ -223,7 +223,7 @@ def waiter_list_correspondence(ctx, n):
                     ops.append('AwakeAll')
                     note.__awake_all__()
         tid = {id(v): k for k, v in toks.items()}
-        sched = [(w, tid[id(sig)]) for w, sig in loop.log]
+        sched = [(w, tid[id(sig)]) for w, sig in loop.log if id(sig) in tid]   # (not: calls made by finalisers of unrelated garbage)
         waiting = [(w, tid[id(sig)]) for w, sig in note._waiting]
         note._waiting.clear()       # (the debug __del__ complains about waiters that are never released)
         cases.append((ops, sched, waiting, revoked, errors))
@@ -450,7 +450,9 @@ def run(ctx):
                                  gen.many_timers(ctx.rng, ctx.n(30, 400)))
     differential(ctx, scs, impl)
     direct_programs(ctx)
-    waiter_list_correspondence(ctx, ctx.n(300, 3000))
+    from harness import watch
+    with watch.quiet_heap():
+        waiter_list_correspondence(ctx, ctx.n(300, 3000))
     from harness.props import C01
     # (what a kept condition object does must not depend on where the allocator puts the next Loop: many runs in a row)
     C01.reused_conditions(ctx, ctx.n(20, 200))
